@@ -1,7 +1,7 @@
 // C18 — Platform faults degrade service gracefully and never wedge the responder (fault enumeration).
 #include "hist.hpp"
 
-// cfg[8] fault kind: 0 none, 1 fail k-th allocation, 2 fail every allocation from the k-th on, 3 refuse k-th transmit, 4 refuse every transmit,
+// cfg[8] fault kind: 7 = k-th allocation fails while every transmit is refused; 0 none, 1 fail k-th allocation, 2 fail every allocation from the k-th on, 3 refuse k-th transmit, 4 refuse every transmit,
 //                    5 failing getters (mask in cfg[9]), 6 the k-th call of ONE getter fails once (cfg[9] = bit number * 256 + k)          cfg[9] = k or mask
 // cfg[10] constructor test: 0 none, 1 mapping, 2 enumeration, 3 session, 4 session table, 5 all four as the Darwin daemon creates them; cfg[9] = which allocation fails
 struct Fault { int kind = 0; int64_t arg = 0; };
@@ -53,6 +53,7 @@ static Outcome exec(const Case &c, const HCfg &h, Fault f, bool with_recovery) {
         case 2: vp_fail_alloc_from((long)f.arg); break;
         case 3: vp_fail_send_at((long)f.arg); break;
         case 4: vp_fail_send_always(1); break;
+        case 7: vp_fail_alloc_at((long)f.arg); vp_fail_send_always(1); break;   // two faults at once: the k-th allocation fails while no transmit succeeds
         default: break;
     }
     Shadow sh;
@@ -68,7 +69,7 @@ static Outcome exec(const Case &c, const HCfg &h, Fault f, bool with_recovery) {
         std::vector<Ev> evs = w.deliver(P, b.frame);
         if (o.first_hit < 0 && (vp_alloc_failed() + vp_send_refused() > hits_before || (((w.ctx(P)->calls_mask | vp_global()->calls_mask) & ~calls_before) & getter_mask) ||
                                 (nth_bit && w.ctx(P)->fail_nth == 0))) o.first_hit = (long)i;
-        if (o.first_hit == (long)i || (o.first_hit >= 0 && (f.kind == 2 || f.kind == 4 || f.kind == 5))) o.faulted_steps.insert(i);
+        if (o.first_hit == (long)i || (o.first_hit >= 0 && (f.kind == 2 || f.kind == 4 || f.kind == 5 || f.kind == 7))) o.faulted_steps.insert(i);
         o.frames.resize(i + 1); o.frames[i] = b.frame; o.frames[i].resize(h.mtu, 0);
         o.stations.resize(i + 1, -1); o.stations[i] = b.station;
         shadow_update_sem(sh, frame_sem(b.frame), b);
@@ -119,6 +120,13 @@ static Verdict run_ctor(const Case &c) {
     World w;
     int which = (int)c.c(10), k = (int)c.c(9, 1);
     vp_set_now_ms(5000);
+    // cfg[7]: a complete, successfully built set of objects (another interface of the daemon) already exists and is in use when the
+    // faulted construction happens; it must be unaffected and both must be destroyable afterwards
+    bool earlier = c.c(7) != 0;
+    size_t at_start = vp_live_blocks();
+    void *m1 = nullptr, *s1 = nullptr, *e1 = nullptr, *t1 = nullptr;
+    int ms0 = 0, ss0 = 0;
+    if (earlier) { m1 = br_init_mapping(); s1 = br_init_session(); e1 = br_init_enumeration(); t1 = br_st_create(); }
     size_t before = vp_live_blocks();
     auto exercise = [&](void *mapping, void *session, void *enumer, void *table) {
         uint64_t last = 0; int user = 1;
@@ -130,6 +138,7 @@ static Verdict run_ctor(const Case &c) {
         vp_set_now_ms(vp_now_ms() + 40000);
         br_tick(mapping, enumer, table, &user, &last, noop_hello, 1);
     };
+    if (earlier) { if (!m1 || !s1 || !e1 || !t1) { v.fail("constructors failed without fault injection"); return v; } exercise(m1, s1, e1, t1); br_switch_mapping(m1, 0); br_switch_mapping(m1, 0); br_switch_session(s1, 3); br_switch_session(s1, 3); ms0 = br_aut_state(m1); ss0 = br_aut_state(s1); }
     vp_fail_alloc_at(k);
     if (which >= 1 && which <= 3) {
         void *a = which == 1 ? br_init_mapping() : which == 2 ? br_init_enumeration() : br_init_session();
@@ -155,7 +164,15 @@ static Verdict run_ctor(const Case &c) {
         v.nontrivial = hit;
     }
     if (v.ok && vp_ledger_violations()) v.fail(vp_ledger_last_violation());
-    if (v.ok && vp_live_blocks() != before) v.fail(fmt("%zu block(s) leaked by the constructor path", vp_live_blocks() - before));
+    if (v.ok && vp_live_blocks() != before) v.fail(fmt("%zu block(s) live after the constructor path, %zu before it", vp_live_blocks(), before));
+    if (earlier) {
+        if (v.ok && (br_aut_state(m1) != ms0 || br_aut_state(s1) != ss0)) v.fail(fmt("the objects that already existed changed state (mapping %d -> %d, session %d -> %d) while another set was constructed under a fault", ms0, br_aut_state(m1), ss0, br_aut_state(s1)));
+        if (v.ok) exercise(m1, s1, e1, t1);
+        br_automata_destroy(m1); br_automata_destroy(s1); br_automata_destroy(e1); br_st_destroy(t1);
+        if (v.ok && vp_ledger_violations()) v.fail(std::string("destroying the objects that existed before the faulted construction: ") + vp_ledger_last_violation());
+        if (v.ok && vp_live_blocks() != at_start) v.fail(fmt("%zu block(s) still allocated after both sets of objects were destroyed", vp_live_blocks() - at_start));
+        v.cls("constructor-next-to-existing-objects");
+    }
     v.cls(fmt("constructor-%d-alloc-%d", which, k));
     return v;
 }
@@ -211,7 +228,7 @@ static Verdict run(const Case &c) {
             else if (sem == SEM_COMMAND) mm.possible.insert(st);   // a command may open a session, and whether a stranger's command takes the role over is left open by C05
         }
     }
-    bool hit = f.kind == 6 ? o.first_hit >= 0 : (f.kind == 1 || f.kind == 2) ? o.alloc_failed > 0 : (f.kind == 3 || f.kind == 4) ? o.refused > 0 : f.kind == 5 ? (o.getter_calls & (uint32_t)f.arg) != 0 : false;
+    bool hit = f.kind == 6 ? o.first_hit >= 0 : (f.kind == 1 || f.kind == 2) ? o.alloc_failed > 0 : (f.kind == 3 || f.kind == 4) ? o.refused > 0 : f.kind == 7 ? (o.alloc_failed > 0 && o.refused > 0) : f.kind == 5 ? (o.getter_calls & (uint32_t)f.arg) != 0 : false;
     v.nontrivial = hit && total_free >= 1;
     v.cls(fmt("fault-kind-%d", f.kind));
     if (hit) v.cls("fault-hit");
@@ -251,7 +268,7 @@ int main(int argc, char **argv) {
     Evidence ev;
     ev.level_hint = "fault_enumeration";
     ev.rule = "scenario corpus (one per request type + compound ones; thorough adds rapidcheck-generated scenarios) x every fault point: fail exactly the k-th allocation for every k up to the scenario's allocation count, "
-              "fail every allocation from the k-th on, refuse the k-th transmit for every k and refuse all, every single failing getter, all pairs and random subsets, the k-th call of each per-interface getter failing once; constructors with the 1st/2nd/... allocation failing. "
+              "fail every allocation from the k-th on, refuse the k-th transmit for every k and refuse all, the k-th allocation failing while every transmit is refused, every single failing getter, all pairs and random subsets, the k-th call of each per-interface getter failing once; constructors with the 1st/2nd/... allocation failing, alone and next to a complete set of objects that is already in use. "
               "Oracle: no sanitizer/ledger report, frames sent under the fault well-formed and not more than fault-free, after the fault clears + Reset exactly one block per interface and a fixed continuation byte-identical to a fresh instance. "
               "non-trivial = the injected fault was actually hit and the fault-free run transmits >= 1 frame; distinct = (scenario, fault)";
     bool ok = true;
@@ -265,7 +282,7 @@ int main(int argc, char **argv) {
         if (!v.ok) { write_file(a.failing, std::string("# ") + part + ": " + v.why + "\n" + c.to_text()); fprintf(stderr, "FAIL part=%s %s\n", part, v.why.c_str()); ok = false; }
     };
     // constructors
-    for (int which = 1; which <= 5; which++) for (int k = 1; k <= (which == 5 ? 7 : 3); k++) { Case c; c.cfg.assign(11, 0); c.cfg[9] = k; c.cfg[10] = which; try_case(c, "c18-constructors"); }
+    for (int which = 1; which <= 5; which++) for (int k = 1; k <= (which == 5 ? 7 : 3); k++) for (int earlier = 0; earlier < 2; earlier++) { Case c; c.cfg.assign(11, 0); c.cfg[7] = earlier; c.cfg[9] = k; c.cfg[10] = which; try_case(c, "c18-constructors"); }
     // scenario corpus x every fault point
     static const uint32_t getters[] = {VF_MTU, VF_MAC, VF_IFTYPE, VF_IPV4, VF_IPV6, VF_SPEED, VF_BSSID, VF_SSID, VF_RATE, VF_RSSI, VG_ICON, VG_FRIENDLY, VG_HOSTNAME, VG_HWID};
     const int NG = sizeof getters / sizeof getters[0];
@@ -276,6 +293,7 @@ int main(int argc, char **argv) {
         for (uint64_t k = 1; k <= fr.allocs + 1; k++) { Case c = sc; c.cfg[8] = 1; c.cfg[9] = (int64_t)k; try_case(c, "c18-alloc-kth"); c.cfg[8] = 2; try_case(c, "c18-alloc-from-kth"); }
         for (uint64_t k = 1; k <= fr.sends + 1; k++) { Case c = sc; c.cfg[8] = 3; c.cfg[9] = (int64_t)k; try_case(c, "c18-send-kth"); }
         { Case c = sc; c.cfg[8] = 4; try_case(c, "c18-send-always"); }
+        for (uint64_t k = 1; k <= fr.allocs + 1; k++) { Case c = sc; c.cfg[8] = 7; c.cfg[9] = (int64_t)k; try_case(c, "c18-alloc-kth-while-no-transmit-succeeds"); }
         for (int i = 0; i < NG; i++) { Case c = sc; c.cfg[8] = 5; c.cfg[9] = getters[i]; try_case(c, "c18-getter-single"); }
         for (int bit = 0; bit < 11; bit++)   // the k-th call of one per-interface getter fails once (a getter that fails on one of two lookups of the same request)
             for (uint32_t k = 1; k <= std::min<uint32_t>(fr.getter_calls_per_bit[bit], 8); k++) { Case c = sc; c.cfg[8] = 6; c.cfg[9] = bit * 256 + (int64_t)k; try_case(c, "c18-getter-kth-call"); }
@@ -291,7 +309,7 @@ int main(int argc, char **argv) {
             Case c; h.to_case(c);
             c.ops = *hg::ops_gen(w, 1, 25);
             c.cfg.resize(11, 0);
-            int kind = *gx::range<int>(1, 6);
+            int kind = *gx::range<int>(1, 7);
             c.cfg[8] = kind;
             if (kind == 5) { int64_t m = 0; int n = *gx::range<int>(1, 6); for (int i = 0; i < n; i++) m |= getters[*gx::range<int>(0, NG - 1)]; c.cfg[9] = m; }
             else if (kind == 6) c.cfg[9] = *gx::pick({0, 1, 0, 0, 2, 3, 4, 5}) * 256 + *gx::range<int64_t>(1, 6);
